@@ -224,9 +224,13 @@ func stName(v int32) string {
 // ---------------------------------------------------------------------------------------------
 // world: two peers, the recording plug-in, connections
 
+// wrapConn is a pass-through connection wrapper of the kind a hook installs with PreSession.ModifySocket.
+type wrapConn struct{ net.Conn }
+
 type directive struct {
 	reject  bool
 	park    bool
+	steps   []string // what the hook does first, in order: "setid" (SetID(setid)), "wrap" (ModifySocket with a pass-through wrapper), "wrapproto" (wrapper + the same protocol function); default: "setid" if setid is set
 	setid   string
 	release chan struct{}
 	once    sync.Once
@@ -324,8 +328,22 @@ func (w *world) hook(side int, ps erpc.PreSession, via string) *erpc.Status {
 		atomic.StoreInt32(&si.healthInHook, 1)
 	}
 	if d != nil {
-		if d.setid != "" {
-			ps.SetID(d.setid)
+		steps := d.steps
+		if len(steps) == 0 && d.setid != "" {
+			steps = []string{"setid"}
+		}
+		for _, st := range steps {
+			switch st {
+			case "setid":
+				ps.SetID(d.setid)
+			case "wrap":
+				ps.ModifySocket(func(c net.Conn) (net.Conn, erpc.ProtoFunc) { return wrapConn{c}, nil })
+				core.Add("modifysocket_wraps", 1)
+			case "wrapproto":
+				pf := ps.GetProtoFunc()
+				ps.ModifySocket(func(c net.Conn) (net.Conn, erpc.ProtoFunc) { return wrapConn{c}, pf })
+				core.Add("modifysocket_wraps", 1)
+			}
 		}
 		if d.hold != nil {
 			<-d.hold
@@ -822,6 +840,11 @@ func (w *world) check(useModel bool) (out []viol, diverged string) {
 				}
 			}
 		}
+		if useModel && si.m == mOK && si.mid != "" && si.sess.Health() {
+			if got := si.sess.ID(); got != si.mid {
+				vs.add("id-changed-without-setid", fmt.Sprintf("%s: ID() reports %q, but the id it was given (by SetID, else its default) is %q and no SetID has changed it since", si.name(), got, si.mid))
+			}
+		}
 		if useModel && si.m == mOK && !si.sess.Health() && diverged == "" {
 			diverged = fmt.Sprintf("%s is live in the reference model but reports status %s", si.name(), stName(erpc.VerifStatus(si.sess)))
 		}
@@ -965,6 +988,19 @@ type caseDesc struct {
 	Conc   *concDesc   `json:"concurrent,omitempty"`
 }
 
+var modsockOrders = []string{"setid-wrap", "wrap-setid", "wrap", "wrap-wrap", "setid-wrapproto"}
+
+// expectedID is the reference model's id of a session that has just got through its hook.
+func expectedID(si *sinfo, d *directive) string {
+	if d != nil && d.setid != "" {
+		return d.setid
+	}
+	if si.via == "dial" {
+		return si.sess.LocalAddr().String()
+	}
+	return si.sess.RemoteAddr().String()
+}
+
 func (w *world) mClose(si *sinfo, why string) {
 	if si == nil {
 		return
@@ -1053,7 +1089,7 @@ func (w *world) exec(o op) (out stepOut) {
 		}
 	}
 	switch o.K {
-	case "accept", "accept-reject", "reject-far", "accept-setid", "accept-slowhook", "hook-setid-reject", "hook-setid-accept":
+	case "accept", "accept-reject", "reject-far", "accept-setid", "accept-slowhook", "hook-setid-reject", "hook-setid-accept", "hook-modsock":
 		if w.closed[sideS] || w.closed[sideC] || len(w.links) >= 14 {
 			out.skipped = true
 			return
@@ -1069,6 +1105,30 @@ func (w *world) exec(o op) (out stepOut) {
 			dS.reject = true
 		case "reject-far":
 			dC.reject = true
+		case "hook-modsock":
+			// the accept / dial hook wraps the connection with PreSession.ModifySocket (pass-through wrapper), before
+			// or after naming the session, alone, or twice. ModifySocket never changes the session's id or the index.
+			via = "serveconn"
+			if w.tcp && o.V%2 == 1 {
+				via = "dial"
+			}
+			d := dS
+			if o.Side%2 == 1 {
+				d = dC
+			}
+			ord := modsockOrders[(o.V>>2)%len(modsockOrders)]
+			d.steps = strings.Split(ord, "-")
+			out.label = "hook-modsock." + ord
+			if o.Side%2 == 1 {
+				out.label += "-far"
+				if via == "dial" {
+					out.label = "hook-modsock." + ord + "-dial"
+				}
+			}
+			if strings.Contains(ord, "setid") {
+				w.idn++
+				d.setid = fmt.Sprintf("id%d", w.idn)
+			}
 		case "hook-setid-reject", "hook-setid-accept":
 			// the accept / dial hook names the session (PreSession.SetID, which already stores it in the index) and
 			// then refuses or accepts the connection. Side 0: the accepting peer's PostAccept hook; side 1: the far
@@ -1164,14 +1224,16 @@ func (w *world) exec(o op) (out stepOut) {
 		rejA, rejB := atomic.LoadInt32(&a.rejected) != 0, atomic.LoadInt32(&b.rejected) != 0
 		// a newly established session takes over its id from an older live one (also with default ids: the far
 		// ends of two ServeConn'ed connections to one listener both default to the listener's address)
+		// The model's id: the one a hook set with SetID, else the default (remote address; a dialled session: its
+		// local address). Nothing but SetID changes it - in particular not ModifySocket.
 		if !rejA {
-			a.m, a.mid = mOK, a.sess.ID()
+			a.m, a.mid = mOK, expectedID(a, dC)
 			if w.mTakeover(sideC, a.mid, a) {
 				core.Add("model_takeovers", 1)
 			}
 		}
 		if !rejB {
-			b.m, b.mid = mOK, b.sess.ID()
+			b.m, b.mid = mOK, expectedID(b, dS)
 			if w.mTakeover(sideS, b.mid, b) {
 				core.Add("model_takeovers", 1)
 			}
@@ -1487,7 +1549,7 @@ var opWeights = []struct {
 	w int
 }{
 	{"accept", 16}, {"accept-reject", 4}, {"reject-far", 3}, {"accept-setid", 6}, {"accept-slowhook", 3},
-	{"hook-setid-reject", 5}, {"hook-setid-accept", 3}, {"setid-loser", 3}, {"takeover-hook-rename", 3},
+	{"hook-setid-reject", 5}, {"hook-setid-accept", 3}, {"setid-loser", 3}, {"takeover-hook-rename", 3}, {"hook-modsock", 5},
 	{"setid-fresh", 9}, {"setid-collide", 11}, {"setid-same", 3}, {"call", 10}, {"push", 8},
 	{"close", 8}, {"remote-close", 6}, {"cut-eof", 4}, {"cut-reset", 4},
 }
@@ -1510,7 +1572,7 @@ func genOps(r *core.Rand, maxOps int) []op {
 			x -= ow.w
 		}
 		o := op{K: k, L: r.Intn(64), Side: r.Intn(4) / 3, V: r.Intn(1 << 12)}
-		if strings.HasPrefix(k, "hook-setid-") {
+		if strings.HasPrefix(k, "hook-setid-") || k == "hook-modsock" {
 			o.Side = r.Intn(3) / 2 // a third of them in the far peer's hook
 		}
 		ops = append(ops, o)
@@ -2683,6 +2745,29 @@ func main() {
 						}
 						doHistory(fmt.Sprintf("d%03d", di-1), path, ops)
 					}
+				}
+			}
+		}
+	}
+	// directed histories "hook-modsock": two connections whose hook wraps the connection with ModifySocket (each
+	// order of SetID and ModifySocket, ModifySocket alone, twice, with the protocol function), traffic in both
+	// directions over the wrapped connections, then one is cut: ids and index entries must be as without the wrapper
+	for _, path := range []string{"serveconn", "listener"} {
+		for side := 0; side < 2; side++ {
+			for _, dial := range []int{0, 1} {
+				if dial == 1 && (path != "listener" || side == 0) {
+					continue
+				}
+				for oi := range modsockOrders {
+					v := dial + 4*oi
+					ops := []op{{K: "accept", V: 1}, {K: "hook-modsock", Side: side, V: v}, {K: "hook-modsock", Side: side, V: v},
+						{K: "call", L: 1, Side: 0}, {K: "call", L: 1, Side: 1}, {K: "call", L: 2, Side: 1 - side}, {K: "push", L: 2, Side: side},
+						{K: "cut-eof", L: 1}, {K: "call", L: 1, Side: side}, {K: "peer-close", Side: 0}, {K: "peer-close", Side: 1}}
+					di++
+					if !mine() {
+						continue
+					}
+					doHistory(fmt.Sprintf("d%03d", di-1), path, ops)
 				}
 			}
 		}
